@@ -32,7 +32,7 @@ def intake(pid, name=None):
             meta = json.load(open(os.path.join(dst, "meta.json")))
             mtxt = json.dumps(meta)
             if "fsanitize=thread" in mtxt: flags.append("-fsanitize=thread")
-            elif "fsanitize=address" in mtxt: flags += ["-fsanitize=address,undefined", "-fno-sanitize-recover=undefined"]
+            elif "fsanitize=address" in mtxt: flags += ["-fsanitize=address"]   # g++ cannot compile ctpg.hpp with -fsanitize=undefined
             def demo(tag):
                 rc, out = sh(["g++"] + flags + ["-I", w + "/include", os.path.join(dst, "demo.cpp"), "-o", scratch + "/demo_" + tag], timeout=900)
                 if rc != 0: return ("compile-failed", out[-300:])
